@@ -22,12 +22,14 @@ package snapshot
 
 import (
 	"errors"
+	"expvar"
 	"io"
 	"log"
 	"os"
 	"path/filepath"
 	"strings"
 
+	"github.com/hashicorp/raft"
 	"github.com/rqlite/rqlite/v10/internal/rsum"
 	"github.com/rqlite/rqlite/v10/internal/rsync"
 	"github.com/rqlite/rqlite/v10/snapshot/plan"
@@ -150,6 +152,8 @@ type vStoreWorld struct {
 	files []string // every data file, oldest first (database, then WAL files)
 	st    *Store
 	died  bool
+
+	reaperDied bool // fatalFn ended the process inside the reaper goroutine
 }
 
 var vErrFatal = errors.New("verif: process ended by fatalFn")
@@ -471,7 +475,24 @@ func vJSONMarshal(v any) ([]byte, error) { return []byte("{json}"), nil }
 
 func vPlanWriteToFile(p *plan.Plan, path string) error {
 	vFS.note("plan-written")
-	return os.WriteFile(path, []byte("{plan}"), 0o644)
+	if err := os.WriteFile(path, []byte("{plan}"), 0o644); err != nil {
+		return err
+	}
+	vFS.nodes[path].aux = p
+	return nil
+}
+
+// plan.ReadFromFile (symbolic run)
+func vPlanReadFromFile(path string) (*plan.Plan, error) {
+	n, ok := vFS.nodes[path]
+	if !ok || n.dir {
+		return nil, vErrNotExist
+	}
+	p, ok := n.aux.(*plan.Plan)
+	if !ok {
+		return nil, vErrBadData
+	}
+	return p, nil
 }
 
 func vExecuteReapPlan(s *Store, p *plan.Plan, planPath string) (int, int, error) {
@@ -490,48 +511,115 @@ var vReapSnapsPlain = []vSnap{
 	{id: "1-20-200", full: true, term: 1, index: 20},
 }
 
-// VerifC12Reap: a reap verifies before it consolidates or removes anything (unless it resumes
-// an interrupted reap): on a bad verdict - fresh or cached - it fails and leaves the directory
-// exactly as it was.
-func VerifC12Reap() {
-	verifPanicsAreViolations()
-	snaps := vReapSnapsPlain
-	chain := vChoice("chain", 2) == 1
-	if chain {
-		snaps = vStoreSnaps // consolidation of WAL files into the database
-	}
-	w := vNewStoreWorld(snaps)
-	defer w.drop()
-	r := &vRef{altered: make([]bool, len(w.files)), disabled: make([]bool, len(w.files))}
-	if vChoice("fatal", 2) == 1 {
-		w.st.fatalFn = func(error) { panic(vErrFatal) }
-	}
-	if f := vChoice("atStart", 1+len(w.files)); f > 0 {
-		vAlter(w.files[f-1])
-		r.altered[f-1] = true
-	}
-	// optionally the store has been used before (verdict cached), and things change afterwards
-	if vChoice("usedBefore", 2) == 1 {
-		vConsume(w, r, vUseEnsureVerify, false)
-		if w.died {
-			return
+// The ways into a reap (every caller chain that ends in reapInternal / executeReapPlan; derived
+// with `grep -n 'reapInternal()\|\.reap()\|executeReapPlan(' snapshot/*.go` and, for the public
+// function, `grep -rn '\.Reap()' --include=*.go .`):
+//   Store.Reap            <- store.(*Store).Reap <- http /reap                        vViaReap
+//   Store.reapLoop        the goroutine NewStore starts; woken through Store.reapCh,
+//                         which Store.Create hands to every Sink as its closeCh and on
+//                         which Sink.Close leaves a token after it published a snapshot  vViaReaperSink
+//                         (the same, with nothing but the token: what the reaper sees
+//                         when the sink belonged to an earlier, already counted snapshot) vViaReaperSignal
+//   Store.check           <- NewStore: finishes an interrupted plan                     VerifC12Start
+const (
+	vViaReap = iota
+	vViaReaperSink
+	vViaReaperSignal
+	vViaCount
+)
+
+// startReaper starts the reaper goroutine as NewStore does (wg.Go(reapLoop)); a process death
+// inside it (fatalFn) ends the goroutine and is noted.
+func (w *vStoreWorld) startReaper() {
+	w.st.wg.Go(func() {
+		if vDies(w.st.reapLoop) {
+			w.reaperDied = true
 		}
-		switch a := vChoice("between", 3); a {
-		case 1:
-			for i, f := range w.files {
-				if r.altered[i] {
-					vRepair(f)
-					r.altered[i] = false
-				}
-			}
-		case 2:
-			last := len(w.files) - 1
-			if !r.altered[last] {
-				vAlter(w.files[last])
-				r.altered[last] = true
+	})
+}
+
+// installIncremental publishes one more incremental snapshot (one WAL file, staged outside the
+// store with a correct checksum record) through a sink made by Store.Create, closed by the real
+// Sink.Close - which then signals the reaper. What Sink.Write would have taken from the stream's
+// header (the staged directory) is set directly: decoding the header is C09's subject.
+func (w *vStoreWorld) installIncremental(term, index uint64) {
+	staged := filepath.Join(w.root, "staged")
+	vMust(os.MkdirAll(staged, 0o755))
+	vWriteData(filepath.Join(staged, vWALName(0)), vWALHdr)
+	rs, err := w.st.Create(1, index, term, raft.Configuration{}, 1, nil)
+	vMust(err)
+	sink := rs.(*Sink)
+	sink.fatalFn = nil
+	sink.localWALDir = staged
+	vMust(sink.Close())
+	w.files = append(w.files, filepath.Join(w.dir, sink.ID(), vWALName(0)))
+}
+
+func vReapErrorCount() int64 {
+	return stats.Get(reapErrors).(*expvar.Int).Value()
+}
+
+// vReapOutcome is what can be seen of one reap from outside.
+type vReapOutcome struct {
+	died     bool // fatalFn ended the process
+	failed   bool // an error was returned (Reap) or logged and counted (reaper)
+	observed bool // the observers were told of a completed reap
+	n        int  // snapshots reaped, as returned / as told to the observers
+}
+
+// vReapVia runs one reap through the given entry point and waits for it to be over.
+func vReapVia(w *vStoreWorld, via int) (o vReapOutcome) {
+	obsCh := make(chan ReapObservation, 4)
+	ob := NewObserver(obsCh, nil)
+	w.st.RegisterObserver(ob)
+	defer w.st.DeregisterObserver(ob)
+	switch via {
+	case vViaReap:
+		var err error
+		var n int
+		o.died = vDies(func() { n, _, err = w.st.Reap() })
+		o.failed = err != nil
+		if o.failed || o.died {
+			verifAssert("C12-failed-reap-reports-nothing-reaped", n == 0)
+		}
+		select {
+		case ob := <-obsCh:
+			o.observed = true
+			verifAssert("C12-reap-tells-observers-what-it-returns", ob.SnapshotsReaped == n)
+		default:
+		}
+		o.n = n
+	default:
+		// the token is in the channel already (left by Sink.Close, or put there below exactly as
+		// Sink.Close does); the reaper finds it as soon as it runs
+		if via == vViaReaperSignal {
+			select {
+			case w.st.reapCh <- struct{}{}:
+			default:
 			}
 		}
+		verifAssert("C12-sink-close-signals-the-reaper", len(w.st.reapCh) == 1)
+		errs0 := vReapErrorCount()
+		w.startReaper()
+		verifSettle()
+		vMust(w.st.Close()) // ends the reaper and waits for it
+		o.died = w.reaperDied
+		o.failed = vReapErrorCount() > errs0
+		select {
+		case ob := <-obsCh:
+			o.observed = true
+			o.n = ob.SnapshotsReaped
+		default:
+		}
 	}
+	return o
+}
+
+// vReapChecked runs one reap through the given entry point and holds it against the reference:
+// a reap verifies before it consolidates or removes anything: on a bad verdict, fresh or cached,
+// it fails (or the process ends) and the directory stays exactly as it was. older/newer: the two
+// snapshot directories of which a plain reap (consolidates == false) removes the first.
+func vReapChecked(w *vStoreWorld, r *vRef, via int, consolidates bool, older, newer string) {
 	before := vTree(w.dir)
 	j0 := 0
 	if verifSymbolic() {
@@ -539,14 +627,15 @@ func VerifC12Reap() {
 	}
 	hadVerdict := r.verdict != 0
 	okWanted := r.useVerdict()
-	if chain && okWanted && !verifSymbolic() {
+	if consolidates && okWanted && !verifSymbolic() {
 		// natively the consolidation needs real SQLite files; the symbolic run covers this case
 		return
 	}
-	var n int
-	var err error
-	died := vDies(func() { n, _, err = w.st.Reap() })
-	if died {
+	o := vReapVia(w, via)
+	if via != vViaReap {
+		verifReach("reap-by-reaper")
+	}
+	if o.died {
 		verifReach("reap-died")
 		verifAssert("C12-process-ends-only-on-a-bad-verdict", !okWanted && w.st.fatalFn != nil)
 	}
@@ -555,7 +644,12 @@ func VerifC12Reap() {
 		if hadVerdict {
 			verifReach("reap-refused-from-cache")
 		}
-		verifAssert("C12-reap-fails-on-bad-verdict", died || err != nil && n == 0)
+		if via != vViaReap {
+			verifReach("reaper-refused")
+		}
+		verifAssert("C12-reap-fails-on-bad-verdict", o.died || o.failed)
+		verifAssert("C12-bad-verdict-does-not-survive-fatal-hook", o.died || w.st.fatalFn == nil)
+		verifAssert("C12-refused-reap-completes-nothing", !o.observed && o.n == 0)
 		verifAssert("C12-refused-reap-leaves-directory-untouched", vSameStrings(before, vTree(w.dir)))
 		if verifSymbolic() {
 			for _, e := range vFS.journal[j0:] {
@@ -565,9 +659,9 @@ func VerifC12Reap() {
 		return
 	}
 	verifReach("reap-ok")
-	verifAssert("C12-reap-ok-on-good-verdict", !died && err == nil)
-	if !chain {
-		verifAssert("C12-reap-removes-older-snapshot", n == 1 && !vExists(filepath.Join(w.dir, snaps[0].id)) && vExists(filepath.Join(w.dir, snaps[1].id)))
+	verifAssert("C12-reap-ok-on-good-verdict", !o.died && !o.failed && o.observed)
+	if !consolidates {
+		verifAssert("C12-reap-removes-older-snapshot", o.n == 1 && !vExists(filepath.Join(w.dir, older)) && vExists(filepath.Join(w.dir, newer)))
 	}
 	if verifSymbolic() {
 		// the verification came first
@@ -582,7 +676,118 @@ func VerifC12Reap() {
 		}
 		verifAssert("C12-reap-plans-after-verifying", planAt >= 0 && lastCRC < planAt)
 		verifAssert("C12-reap-verifies-iff-no-verdict-yet", (lastCRC >= 0) == !hadVerdict)
+		if !hadVerdict {
+			// every data file the store holds at that moment, not just some
+			for i, f := range w.files {
+				if r.disabled[i] {
+					continue
+				}
+				seen := false
+				for _, e := range vFS.journal[j0:] {
+					if e == "crc "+f {
+						seen = true
+					}
+				}
+				verifAssert("C12-reap-verifies-every-data-file", seen)
+			}
+		}
 	}
+}
+
+// leavePlan leaves the plan of an interrupted reap behind: the process died after the plan was
+// written and before its one step (removal of the directory) happened.
+func (w *vStoreWorld) leavePlan(remove string) {
+	p := plan.New()
+	p.AddRemoveAll(remove)
+	p.NReaped = 1
+	vMust(plan.WriteToFile(p, filepath.Join(w.dir, reapPlanFile)))
+}
+
+// forget drops the data files below dir from the reference (the directory has been reaped).
+func (w *vStoreWorld) forget(r *vRef, dir string) {
+	var files []string
+	var alt, dis []bool
+	for i, f := range w.files {
+		if strings.HasPrefix(f, dir+"/") {
+			continue
+		}
+		files, alt, dis = append(files, f), append(alt, r.altered[i]), append(dis, r.disabled[i])
+	}
+	w.files, r.altered, r.disabled = files, alt, dis
+}
+
+// VerifC12Reap: a reap - through whichever entry point it is started - verifies before it
+// consolidates or removes anything, see vReapChecked. A reap that finds the plan of an interrupted
+// one only finishes that plan (by design without verifying: the files are in an undefined state
+// until it is finished); it must not count as the store's first use: the next consumer verifies.
+func VerifC12Reap() {
+	verifPanicsAreViolations()
+	snaps := vReapSnapsPlain
+	chain := vChoice("chain", 2) == 1
+	if chain {
+		snaps = vStoreSnaps // consolidation of WAL files into the database
+	}
+	w := vNewStoreWorld(snaps)
+	defer w.drop()
+	via := vChoice("via", vViaCount)
+	if vChoice("fatal", 2) == 1 {
+		w.st.fatalFn = func(error) { panic(vErrFatal) }
+	}
+	nStart := len(w.files)
+	f := vChoice("atStart", 1+nStart)
+	if via == vViaReaperSink {
+		// the node has been running: one more snapshot was taken (before or after the first use,
+		// see below); the reaper's threshold is reached with it
+		w.st.SetReapThreshold(len(snaps) + 1)
+	} else {
+		w.st.SetReapThreshold(len(snaps))
+	}
+	r := &vRef{altered: make([]bool, nStart+1), disabled: make([]bool, nStart+1)}
+	if f > 0 {
+		vAlter(w.files[f-1])
+		r.altered[f-1] = true
+	}
+	// optionally the store has been used before (verdict cached), and things change afterwards
+	usedBefore := vChoice("usedBefore", 2) == 1
+	if usedBefore {
+		vConsume(w, r, vUseEnsureVerify, false)
+		if w.died {
+			return
+		}
+		switch a := vChoice("between", 3); a {
+		case 1:
+			for i, f := range w.files {
+				if r.altered[i] {
+					vRepair(f)
+					r.altered[i] = false
+				}
+			}
+		case 2:
+			last := nStart - 1
+			if !r.altered[last] {
+				vAlter(w.files[last])
+				r.altered[last] = true
+			}
+		}
+	}
+	if via == vViaReaperSink {
+		w.installIncremental(1, 30)
+	}
+	r.altered, r.disabled = r.altered[:len(w.files)], r.disabled[:len(w.files)]
+	if !chain && !usedBefore && via != vViaReaperSink && vChoice("interrupted", 2) == 1 {
+		// an earlier reap of this directory was interrupted
+		older := filepath.Join(w.dir, snaps[0].id)
+		w.leavePlan(older)
+		o := vReapVia(w, via)
+		verifReach("reap-resumed")
+		verifAssert("C12-resumed-reap-finishes-the-plan", !o.died && !o.failed && o.observed && o.n == 1 && !vExists(older) && !vExists(filepath.Join(w.dir, reapPlanFile)))
+		w.forget(r, older)
+		// the store's data has not been verified by that: whoever uses it next does it
+		verifAssert("C12-resumed-reap-is-not-a-verdict", r.verdict == 0)
+		vConsume(w, r, vUseEnsureVerify, true)
+		return
+	}
+	vReapChecked(w, r, via, chain || via == vViaReaperSink, snaps[0].id, snaps[1].id)
 }
 
 // vTree lists every path below dir (sorted walk).
